@@ -16,9 +16,12 @@ type GoTypeOpts struct {
 	// shape the unfolder documents); otherwise also on maps, pointers and
 	// interfaces (fold side only).
 	InlineStructOnly bool
-	NoInterface      bool
-	NoUnexported     bool
-	NoPtr            bool
+	// Arrays: also generate fixed-size array kinds (fold side only: arrays are
+	// not supported as unfold targets).
+	Arrays       bool
+	NoInterface  bool
+	NoUnexported bool
+	NoPtr        bool
 	// MaxPtr is the maximum pointer chain length (default 3).
 	MaxPtr int
 	// Extra are additional leaf types to draw from (zoo types).
@@ -67,6 +70,9 @@ func (g *TypeGen) Type(depth int) reflect.Type {
 	case 0, 1, 2, 3, 4, 5, 6, 7:
 		return g.leaf()
 	case 8, 9:
+		if g.O.Arrays && r.P(1, 4) {
+			return reflect.ArrayOf(r.Intn(4), g.Type(depth+1))
+		}
 		return reflect.SliceOf(g.Type(depth + 1))
 	case 10, 11:
 		return reflect.MapOf(TString, g.Type(depth+1))
